@@ -174,6 +174,9 @@ PERDECL = [
     # a callback whose declaration is longer than a line (the debug comment that repeats it must stay a comment)
     ["- decl: void on_event(void (*handler)(int event_code, double timestamp +value, const char * message, int severity_level +value, void * user_data))\n",
      "- decl: int plain2(int a)\n"],
+    # overloads of which only the first carries declaration-level splicers (the emitters read them from "the" node)
+    ["- decl: int twice(int n)\n  splicer:\n    lua:\n    - lua_pushinteger(L, 1);\n    - return 1;\n    c:\n    - return 2;\n",
+     "- decl: int twice(double x)\n", "- decl: int twice(const char *s)\n"],
     # fortran_generic and a function returning a string
     ["- decl: void gen(double arg)\n  fortran_generic:\n  - decl: (float arg)\n  - decl: (double arg)\n",
      "- decl: const std::string& title()\n"],
